@@ -1438,6 +1438,8 @@ class _IndexGOMixin:
             if not (isinstance(value, INT_TYPES)
                     and value == self._positions_mutable_count):
                 initialize_map = True
+                # build the map before anything is mutated: an unhashable value must leave the index unchanged
+                map_new = AutoMap(self._labels_mutable + [value])
         else:
             self._map.add(value)
 
@@ -1451,7 +1453,7 @@ class _IndexGOMixin:
         self._labels_mutable.append(value)
 
         if initialize_map:
-            self._map = AutoMap(self._labels_mutable)
+            self._map = map_new
 
         self._positions_mutable_count += 1
         self._recache = True
